@@ -115,14 +115,7 @@ func refSimple(typ, format string, cv *spec.CommonValidations, items *spec.Items
 	var elems []interface{}
 	switch x := v.(type) {
 	case []interface{}:
-		for _, e := range x {
-			if e != nil { // a nil value is not validated
-				elems = append(elems, e)
-			}
-		}
-		if cv.MinItems != nil || cv.MaxItems != nil || cv.UniqueItems {
-			elems = x // sizes and uniqueness count every element
-		}
+		elems = x // sizes and uniqueness count every element; nil elements are skipped below
 	case []string:
 		for _, e := range x {
 			elems = append(elems, e)
@@ -159,6 +152,9 @@ func refSimple(typ, format string, cv *spec.CommonValidations, items *spec.Items
 	}
 	if items != nil {
 		for _, e := range elems {
+			if e == nil {
+				continue // a nil value is not validated
+			}
 			ok = verifAnd(ok, refSimple(items.Type, items.Format, &items.CommonValidations, items.Items, e))
 		}
 	}
